@@ -30,6 +30,11 @@ func mpUploadPart(s *drv.Server, b, k, id string, n int, body []byte, hdr http.H
 	return s.Do(&drv.Req{Method: "PUT", Path: drv.ObjPath(b, k), Query: drv.Q("partNumber", strconv.Itoa(n), "uploadId", id), Body: body, Header: hdr})
 }
 
+// mpUploadPartSpelt sends the part number in the given spelling (zero-padded decimal, say).
+func mpUploadPartSpelt(s *drv.Server, b, k, id, n string, body []byte, hdr http.Header) *drv.Resp {
+	return s.Do(&drv.Req{Method: "PUT", Path: drv.ObjPath(b, k), Query: drv.Q("partNumber", n, "uploadId", id), Body: body, Header: hdr})
+}
+
 func completeXML(parts []model.CompletePart) []byte {
 	var sb strings.Builder
 	sb.WriteString("<CompleteMultipartUpload>")
@@ -77,7 +82,7 @@ type mpStep struct {
 
 func runC06(c *Ctx) {
 	r := c.R
-	r.SetRule("random multipart histories (8-18 steps: initiate / upload-part / re-upload / complete / abort / get) over keys {mp/k1, mp/k2} with up to 3 simultaneous uploads per key, part numbers from {1,2,3,7,100,9999,10000}, part bodies of 0..70000 bytes, part lists that are ascending subsets, permutations, contain unknown numbers, stale or garbage ETags, quoted and unquoted ETags, repeated numbers or are empty; after every step GET of both objects and ListParts of every pending upload are compared with MultipartModel; on all seven backend configurations; plus completes with a valid list that the backend refuses (fs: key below / above another key; mem, bolt, fs: bucket deleted and re-created), which must store nothing, leave ListParts unchanged and succeed with the full body when repeated after the obstacle is removed; UploadPartCopy requests, which must be refused or yield a part with the source's bytes; part / abort / complete requests with an empty uploadId, which must not touch the object; distinct = (backend, sequence of (op, part-list kind, outcome))")
+	r.SetRule("random multipart histories (8-18 steps: initiate / upload-part / re-upload / complete / abort / get) over keys {mp/k1, mp/k2} with up to 3 simultaneous uploads per key, part numbers from {1,2,3,7,8,9,10,100,9999,10000} (one upload in six spelt with leading zeros), part bodies of 0..70000 bytes, part lists that are ascending subsets, permutations, contain unknown numbers, stale or garbage ETags, quoted and unquoted ETags, repeated numbers or are empty; after every step GET of both objects and ListParts of every pending upload are compared with MultipartModel; on all seven backend configurations; plus completes with a valid list that the backend refuses (fs: key below / above another key; mem, bolt, fs: bucket deleted and re-created), which must store nothing, leave ListParts unchanged and succeed with the full body when repeated after the obstacle is removed; UploadPartCopy requests, which must be refused or yield a part with the source's bytes; part / abort / complete requests with an empty uploadId, which must not touch the object; distinct = (backend, sequence of (op, part-list kind, outcome))")
 	nh := r.Pick(3000, 40000)
 	kinds := drv.AllKinds
 	r.Set("backends", kinds)
@@ -92,7 +97,7 @@ func runC06(c *Ctx) {
 			jobs = append(jobs, job{k, lo, lo + step})
 		}
 	}
-	partNums := []int{1, 2, 3, 7, 100, 9999, 10000}
+	partNums := []int{1, 2, 3, 7, 8, 9, 10, 100, 9999, 10000}
 	rep.Parallel(len(jobs), 0, func(w, ji int) {
 		j := jobs[ji]
 		s := mustServer(drv.Opts{Kind: j.kind})
@@ -167,7 +172,14 @@ func runC06(c *Ctx) {
 					if rng.Intn(2) == 0 {
 						hdr = drv.H("Content-MD5", drv.MD5B64(body))
 					}
-					resp := mpUploadPart(s, bucket, idKey[ui], ids[ui], n, body, hdr)
+					var resp *drv.Resp
+					if rng.Intn(6) == 0 {
+						// a part number is a decimal number however many zeros lead it ('010' is ten)
+						resp = mpUploadPartSpelt(s, bucket, idKey[ui], ids[ui], fmt.Sprintf("%0*d", 2+rng.Intn(5), n), body, hdr)
+						r.Count("zero_padded_part_numbers", 1)
+					} else {
+						resp = mpUploadPart(s, bucket, idKey[ui], ids[ui], n, body, hdr)
+					}
 					u := mm.Lookup(ids[ui], bucket, idKey[ui])
 					if resp.Panic != nil {
 						fail("panic", "upload-part", fmt.Sprintf("upload-part panicked: %v", resp.Panic), respDesc(resp))
